@@ -343,7 +343,7 @@ def run(ck, P):
             mt = [x for x in e.fn.events() if x.kind == "assign" and S(x.lhs) == "pool->max_threads"]
             okb = okb and bool(mt) and all(S(x.rhs) == e.fn.params[0]["name"] for x in mt)
         else:
-            fc2 = X.facts(e.fn, e)
+            fc2 = rules.stable_atoms(P, X.cg, e.fn, e, X.facts(e.fn, e))      # (the list length may sit in a local read under the same lock)
             okb = okb and cval(e.args[1]) == 1 and has(fc2, "(m_list_len(pool->threads) < pool->max_threads)") and e.block.id not in e.fn.in_loop_blocks()
         detb.append((e.fn.name, S(e.args[1])))
     ck.ob("C06.4-HANDOFF", "%s:add_threads:thread bound" % T, okb,
@@ -419,7 +419,7 @@ def run(ck, P):
     # a thread is on the list exactly when it exists: the handle goes into pool->threads only after pthread_create succeeded
     at = fns["add_threads"]
     ck.analysed(at)
-    ins = [e for e in at.calls("m_list_insert") if S(e.args[0]) == "pool->threads"]
+    ins = [e for e in at.calls("m_list_insert") if rules.stable_S(P, X.cg, at, e, e.args[0]) == "pool->threads"]
     crt = [e for e in at.events() if e.kind in ("assign", "decl") and e.rhs is not None and strip(e.rhs).get("callee") == "pthread_create"]
     okin = bool(ins) and len(crt) == 1
     if okin:
